@@ -125,6 +125,34 @@ def m_isabs(ex, st, args, kwargs, node):
     return [(st, VBool(ISABS(args[0].t)))]
 
 
+DIRNAME = z3.Function("os_path_dirname", S, S)
+
+
+def dirname_fact(base, p):
+    """os.path.dirname (assumed, POSIX) of a normalised absolute path p that lies strictly below abspath(base): a normalised absolute path that is
+    abspath(base) or lies below it (p = b/c1/../cn without empty components: dirname drops `/cn`).  Nothing is said about dirname(abspath(base))
+    itself -- that is the PARENT of the private directory, see `mkdir_ok`."""
+    b, d = ABS(base), DIRNAME(p)
+    return z3.And(z3.Implies(z3.And(NORM(p), z3.PrefixOf(z3.Concat(b, SEP), p)), z3.And(NORM(d), z3.Or(d == b, z3.PrefixOf(z3.Concat(b, SEP), d)))),
+                  z3.Implies(z3.And(NORM(p), z3.SuffixOf(SEP, b), z3.PrefixOf(b, p)), z3.And(NORM(d), z3.PrefixOf(b, d))))
+
+
+def m_dirname(ex, st, args, kwargs, node):
+    if len(args) != 1 or kwargs or not isinstance(args[0], VStr):
+        return ex.havoc_call(st, "os.path.dirname", args, node)
+    temp = st.ghost.get("temp_dir")
+    if temp is not None:
+        st.assume(dirname_fact(temp, args[0].t))
+    return [(st, VStr(DIRNAME(args[0].t)))]
+
+
+def mkdir_ok(temp, p):
+    """what os.makedirs(p, exist_ok=True) may be given: a path inside the private directory (every directory it creates is then inside: the
+    private directory exists), or the parent of the private directory (an ancestor of an existing directory exists: nothing is created; this
+    is what a *file* member whose name normalises to `.` makes the reader do before open() fails with IsADirectoryError)."""
+    return z3.Or(inside(temp, p), p == DIRNAME(ABS(temp)), p == DIRNAME(temp))
+
+
 def fs_call(kind):
     """A file-system effect: emits the confinement obligation on its path argument."""
     def m(ex, st, args, kwargs, node):
@@ -134,7 +162,7 @@ def fs_call(kind):
         if temp is None or not isinstance(p, VStr):
             ex.add_vc("fs-confined", label, st.pc, z3.BoolVal(False), note=f"{ex.loc(node)} {kind}: no private temp dir in scope / path not a string", loc=ex.loc(node))
         else:
-            ex.add_vc("fs-confined", label, st.pc, inside(temp, p.t), note=f"{ex.loc(node)} {kind}", loc=ex.loc(node))
+            ex.add_vc("fs-confined", label, st.pc, mkdir_ok(temp, p.t) if kind == "os.makedirs" else inside(temp, p.t), note=f"{ex.loc(node)} {kind}", loc=ex.loc(node))
         ex.exc_any(st.fork(), f"{ex.loc(node)} {kind}")
         if kind in ("os.path.exists", "os.path.lexists", "os.path.isfile", "os.path.isdir"):
             return [(st, VBool(z3.Bool(fresh_name("exists"))))]
@@ -184,6 +212,7 @@ def install(reg):
     reg.ext_models["os.path.join"] = m_join
     reg.ext_models["os.path.splitdrive"] = m_splitdrive
     reg.ext_models["os.path.isabs"] = m_isabs
+    reg.ext_models["os.path.dirname"] = m_dirname
     reg.ext_models["os.path.commonprefix"] = m_commonprefix
     reg.ext_models["os.path.commonpath"] = m_commonpath
     reg.ext_models["os.path.relpath"] = m_relpath
@@ -280,6 +309,84 @@ def contracts(reg):
         returns=skip_spec,
         note="hidden members, macOS resource forks, unsupported types and nested archives are skipped",
     ))
+    out.extend(writer_contracts(reg))
+    return out
+
+
+# ------------------------------------------------------------------- round 7: the 7z reader's writing side under deductive contracts --
+I_ = z3.IntSort()
+FileInfoS = ext_sort("FileInfo")
+NFILES = z3.Int("c09_n_files")
+FINFO = z3.Function("c09_file_info", I_, FileInfoS)
+FNAME = z3.Function("c09_file_name", FileInfoS, S)                # arbitrary strings: absolute, dot-dot, drive, empty, names of host files
+ISDIR = z3.Function("c09_file_is_directory", FileInfoS, z3.BoolSort())
+USIZE = z3.Function("c09_file_uncompressed", FileInfoS, I_)
+NFOLD = z3.Int("c09_n_folder_lists")
+NIDX = z3.Function("c09_folder_file_count", I_, I_)
+FIDX = z3.Function("c09_folder_file_index", I_, I_, I_)
+FS_SITES = SYMBOLIC_FS + ("file.write",)
+
+
+def _fs_site(c):
+    """the escaping exception was raised by a file-system primitive (EXC-ANY at that call: e.g. ValueError for a NUL in a member name)"""
+    site = str(getattr(c.exc, "attrs", {}).get("site", "")) if c.exc is not None else ""
+    return z3.BoolVal(any(site.endswith(" " + k) for k in FS_SITES))
+
+
+def writer_contracts(reg):
+    """_mkdirs / SevenZipReader._extract_files_from_folder / SevenZipReader.extractall (zero-length loop and directory creation): every path
+    that reaches os.makedirs / open is INSIDE the directory the caller named, for ALL member tables (names, kinds and sizes are uninterpreted),
+    any number of members, any folder output.  Rounds 3-6 had these three functions under the data-flow policy P6 only."""
+    from pyvc.verify import Maker, p_int, p_obj
+    out = []
+    try:
+        reg.attr_models[("FileInfo", "is_directory")] = lambda ex, st, o: VBool(ISDIR(o.t))
+        reg.attr_models[("FileInfo", "uncompressed")] = lambda ex, st, o: __import__("pyvc.values", fromlist=["VInt"]).VInt(USIZE(o.t))
+        reg.attr_models[("FileInfo", "filename")] = lambda ex, st, o: VStr(FNAME(o.t))
+
+        def m_write(ex, st, obj, args, kwargs, node):
+            from pyvc.values import VInt
+            ex.exc_any(st.fork(), f"{ex.loc(node)} file.write")
+            return [(st, VInt(z3.Int(fresh_name("written"))))]
+        reg.method_models[("File", "write")] = m_write
+        from pyvc.values import VInt
+        p_files = Maker(lambda ex, st, name: [(NFILES >= 0, VSeq(NFILES, lambda i: VExt("FileInfo", FINFO(i)), "FileInfo"))], desc="list[FileInfo], any length, uninterpreted names / kinds / sizes")
+        p_fmap = Maker(lambda ex, st, name: [(NFOLD >= 0, VSeq(NFOLD, lambda k: VSeq(NIDX(k), lambda j: VInt(FIDX(k, j)), "int"), "list[int]"))],
+                       desc="folder index -> list of file indices (a dict in the code; modelled as a total map on 0..n-1, `requires` says the key is present)")
+        p_blob = Maker(lambda ex, st, name: [(z3.Int(f"{name}_len") >= 0, VSeq(z3.Int(f"{name}_len"), lambda i: VInt(z3.Function(f"{name}_byte", I_, I_)(i)), "byte", is_bytes=True))],
+                       desc="bytes of any length")
+        (mk_path,) = real_params(SEVEN, "_mkdirs", ("path",))
+        ef_self, ef_base, ef_k, ef_dec = real_params(SEVEN, "SevenZipReader._extract_files_from_folder", ("self", "base_path", "folder_idx", "decompressed"))
+
+        def mk_requires(c):
+            temp = c.st.ghost.get("temp_dir")
+            if temp is None:                                   # the function's own verification: ANY private directory
+                temp = z3.String("c09_private_dir")
+                c.st.ghost["temp_dir"] = temp
+            return mkdir_ok(temp, c.args[mk_path].t)
+
+        out.append(FnContract(
+            target=f"{SEVEN}::_mkdirs", params=[(mk_path, p_str())], requires=mk_requires,
+            raises=[Raises("Bad7zFile"), Raises("Exception", sub=True, when=_fs_site, label="raised by the file-system primitive itself")],
+            note="requires: the path is inside the private directory (or is its parent: nothing to create); the only file-system call is os.makedirs on that very path. "
+                 "VERIFIED; callers see the same contract (call-pre obligation at each call site)"))
+
+        def ef_requires(c):
+            c.st.ghost["temp_dir"] = c.args[ef_base].t
+            k = ops.int_term(c.args[ef_k])
+            j = z3.Int("j!c09req")
+            return z3.And(k >= 0, k < NFOLD, NIDX(k) >= 0,
+                          z3.ForAll([j], z3.Implies(z3.And(j >= 0, j < NIDX(k)), z3.And(FIDX(k, j) >= 0, FIDX(k, j) < NFILES)), patterns=[FIDX(k, j)]))
+
+        out.append(FnContract(
+            target=f"{SEVEN}::SevenZipReader._extract_files_from_folder",
+            params=[(ef_self, p_obj("SevenZipReader", {"_folder_to_files": p_fmap, "_files": p_files})), (ef_base, p_str()), (ef_k, p_int()), (ef_dec, p_blob)],
+            requires=ef_requires,
+            raises=[Raises("Bad7zFile"), Raises("Exception", sub=True, when=_fs_site, label="raised by the file-system primitive itself")],
+            note="for every member table and every folder output: each os.makedirs / open path is inside base_path (fs-confined VCs at the real call sites, "
+                 "_safe_join and _mkdirs through their VERIFIED contracts); the loop needs no invariant beyond base_path being loop-invariant"))
+    except Exception:  # noqa  a contract that cannot be built is reported by the vacuity guard (missing obligation), never an exception
+        pass
     return out
 
 
